@@ -87,15 +87,24 @@ Rendering(R, f, spec) == LET c == {k \in 1..Len(R) : R[k].f = f /\ R[k].spec = s
 Interp(v, lit, R) == Flat([k \in 1..Len(Pieces(lit)) |->
                        LET p == Pieces(lit)[k] IN
                        IF p.t = "text" THEN p.s ELSE Rendering(R, FieldOf(v, p.arg), p.spec)])
+\* width / precision parameters inside a spec (`{text:>wd$}`, `{0:.1$}`): the identifier or index in front of each `$`
+IsIdChar(c) == IsAlnum(c) \/ c = 95
+RECURSIVE RunStart(_, _)
+RunStart(s, j) == IF j >= 1 /\ IsIdChar(s[j]) THEN RunStart(s, j - 1) ELSE j + 1
+ParamRefs(spec) == {SubSeq(spec, RunStart(spec, d - 1), d - 1) :
+                      d \in {k \in 2..Len(spec) : spec[k] = 36 /\ IsIdChar(spec[k - 1])}}
+ParamsOf(ps) == UNION {ParamRefs(ps[k].spec) : k \in {j \in 1..Len(ps) : ps[j].t = "arg"}}
 \* a literal is an interpolating one iff it is well-formed, has at least one argument and every argument
-\* names a field of the variant
+\* (and every width / precision parameter) names a field of the variant
 Interpolates(v, lit) == LET ps == Pieces(lit) IN
-                        ~IsBad(ps) /\ ArgsOf(ps) # <<>> /\ \A k \in 1..Len(ArgsOf(ps)) : FieldOf(v, ArgsOf(ps)[k]) # 0
+                        /\ ~IsBad(ps) /\ ArgsOf(ps) # <<>> /\ \A k \in 1..Len(ArgsOf(ps)) : FieldOf(v, ArgsOf(ps)[k]) # 0
+                        /\ \A a \in ParamsOf(ps) : FieldOf(v, a) # 0
 \* format! itself rejects a positional argument that the literal never uses, so a tuple variant's literal
 \* must mention every position for "renders like format! with the fields bound by position" to mean anything
 UsesAllPositions(v, lit) ==
   v.kind = "tuple" => \A k \in 1..Len(v.fields) :
-                         \E a \in 1..Len(ArgsOf(Pieces(lit))) : FieldOf(v, ArgsOf(Pieces(lit))[a]) = k
+                         \/ \E a \in 1..Len(ArgsOf(Pieces(lit))) : FieldOf(v, ArgsOf(Pieces(lit))[a]) = k
+                         \/ \E a \in ParamsOf(Pieces(lit)) : FieldOf(v, a) = k          \* used as `k$`
 \* documented domain of Display's naming: a name with braces is either a well-formed literal without
 \* arguments (then it is a fixed name, printed verbatim) or an interpolating to_string literal of a
 \* tuple / named variant
